@@ -22,7 +22,7 @@ import re
 import vcommon as v
 
 UNIT = 64 * 1024
-MC_ACTIONS = ("Insert", "Get", "Remove", "Evict", "Clear", "SetWM", "Retire", "DropGen")
+MC_ACTIONS = ("Insert", "Get", "Peek", "Remove", "Evict", "Clear", "SetWM", "Retire", "DropGen")
 TRACE_PROPS = ("MemExact", "HitOnlyExactGen", "RemoveThenMiss", "EvictToLow", "SecondChance",
                "TouchSetsRef")
 
